@@ -158,3 +158,149 @@ package ast
 //@ func Document.ImportInputValueDefinition
 //@   ensures {the.new.definition.is.the.last.one.and.has.no.directives} result == len(d.InputValueDefinitions) - 1 && result >= 0 && !d.InputValueDefinitions[result].HasDirectives
 //@   modifies *
+
+// ----------------------------------------------------------------------------------------------
+// C03, field merge guard: two fields are reported equal only if name, alias, argument set and (when asked) directive set
+// were all compared for this very pair and found equal, and neither field has a selection set.
+//@ func Document.FieldArguments
+//@   requires d != nil
+//@   ensures result == d.Fields[ref].Arguments.Refs
+//@   pure
+//@   safety no-bounds
+//@ func Document.FieldDirectives
+//@   requires d != nil
+//@   ensures result == d.Fields[ref].Directives.Refs
+//@   pure
+//@   safety no-bounds
+//@ func Document.FieldHasSelections
+//@   requires d != nil
+//@   ensures result == d.Fields[ref].HasSelections
+//@   pure
+//@   safety no-bounds
+
+//@ func Document.FieldsAreEqualFlat
+//@   requires d != nil
+//@   let la = d.Fields[left].Arguments.Refs
+//@   let ra = d.Fields[right].Arguments.Refs
+//@   let ld = d.Fields[left].Directives.Refs
+//@   let rd = d.Fields[right].Directives.Refs
+//@   ghost var g_n int = 0
+//@   ghost var g_name bool = false
+//@   ghost var g_alias bool = false
+//@   ghost var g_args bool = false
+//@   ghost var g_dirs bool = false
+//@   ghost var g_stream bool = false
+//@   ghost var g_nl int = 0
+//@   ghost var g_nr int = 0
+//@   ghost var g_al int = 0
+//@   ghost var g_ar int = 0
+//@   ghost var g_k int = 0
+//@   ghost var g_j int = 0
+//@   at call Document.FieldNameBytes: assert {names.of.left.then.right} (g_k == 0 ==> arg1 == left) && (g_k == 1 ==> arg1 == right) && g_k < 2
+//@   at call Document.FieldNameBytes: ghost g_nl = ite(g_k == 0, arr(result), g_nl)
+//@   at call Document.FieldNameBytes: ghost g_nr = ite(g_k == 1, arr(result), g_nr)
+//@   at call Document.FieldNameBytes: ghost g_k = g_k + 1
+//@   at call Document.FieldAliasBytes: assert {aliases.of.left.then.right} (g_j == 0 ==> arg1 == left) && (g_j == 1 ==> arg1 == right) && g_j < 2
+//@   at call Document.FieldAliasBytes: ghost g_al = ite(g_j == 0, arr(result), g_al)
+//@   at call Document.FieldAliasBytes: ghost g_ar = ite(g_j == 1, arr(result), g_ar)
+//@   at call Document.FieldAliasBytes: ghost g_j = g_j + 1
+//@   at call bytes.Equal: assert {first.the.names.then.the.aliases.are.compared} (g_n == 0 ==> g_k == 2 && arr(arg0) == g_nl && arr(arg1) == g_nr) && (g_n == 1 ==> g_j == 2 && arr(arg0) == g_al && arr(arg1) == g_ar) && g_n < 2
+//@   at call bytes.Equal: ghost g_name = ite(g_n == 0, result, g_name)
+//@   at call bytes.Equal: ghost g_alias = ite(g_n == 1, result, g_alias)
+//@   at call bytes.Equal: ghost g_n = g_n + 1
+//@   at call Document.ArgumentSetsAreEquals: assert {the.argument.sets.of.this.pair} arg1 == la && arg2 == ra
+//@   at call Document.ArgumentSetsAreEquals: ghost g_args = result
+//@   at call Document.DirectiveSetsAreEqual: assert {the.directive.sets.of.this.pair} arg1 == ld && arg2 == rd
+//@   at call Document.DirectiveSetsAreEqual: ghost g_dirs = result
+//@   at call Document.DirectiveSetsHasCompatibleStreamDirective: ghost g_stream = result
+//@   ensures {equal.means.name.alias.and.arguments.agree.and.both.are.leaves} result ==> g_n == 2 && g_name && g_alias && g_args && !old(d.Fields[left].HasSelections) && !old(d.Fields[right].HasSelections)
+//@   ensures {with.directives.compared.when.asked} result && checkDirectivesEquality ==> g_dirs
+//@   ensures {stream.directives.always.compatible} result && !checkDirectivesEquality ==> g_stream
+//@   pure
+//@   safety no-bounds
+
+//@ func Document.ArgumentSetsAreEquals
+//@   requires d != nil
+//@   ghost var g_eq int = 0
+//@   at call Document.ArgumentsAreEqual: assert {arguments.are.compared.position.by.position} arg1 == left[i] && arg2 == right[i] && g_eq == i
+//@   at call Document.ArgumentsAreEqual: ghost g_eq = ite(result, g_eq + 1, g_eq)
+//@   ensures {equal.sets.have.the.same.length.and.every.position.compared.equal} result ==> len(left) == len(right) && g_eq == len(left)
+//@   pure
+//@   loop 0:
+//@     invariant g_eq == phi0 + 1 && len(left) == len(right)
+
+// multiset equality of directive lists: equal length, and every left directive is matched to a right directive that
+// was not matched before (an injection between lists of equal length is a bijection)
+//@ func Document.directivesWithoutDeferInternal
+//@   requires d != nil
+//@   ensures {a.new.list} (result == nil || fresh(result)) && len(result) <= len(refs)
+//@   pure
+//@   loop 0:
+//@     invariant fresh(filtered) && len(filtered) <= phi1 + 1
+//@ func Document.DirectiveSetsAreEqual
+//@   requires d != nil
+//@   ghost var g_found int = 0
+//@   ghost var g_calls int = 0
+//@   ghost var g_ll int = 0 - 1
+//@   ghost var g_rl int = 0 - 1
+//@   at call Document.directivesWithoutDeferInternal: ghost g_ll = ite(g_calls == 0, len(result), g_ll)
+//@   at call Document.directivesWithoutDeferInternal: ghost g_rl = ite(g_calls == 1, len(result), g_rl)
+//@   at call Document.directivesWithoutDeferInternal: ghost g_calls = g_calls + 1
+//@   at call Document.DirectivesAreEqual: assert {a.left.directive.is.compared.with.a.right.directive.not.matched.before} arg1 == leftDirective && arg2 == rightDirective && !matched[j] && rightDirective == rightDirectives[j]
+//@   at call Document.DirectivesAreEqual: ghost g_found = ite(result, g_found + 1, g_found)
+//@   ghost var g_m intarray = zeroarray
+//@   at call Document.DirectivesAreEqual: ghost g_m = ite(result, store(g_m, j, 1), g_m)
+//@   ensures {equal.sets.have.equal.size.and.every.left.directive.found.its.own.partner} result ==> g_calls == 2 && g_ll == g_rl && g_found == g_ll
+//@   pure
+//@   safety no-bounds
+//@   loop 0:
+//@     invariant g_calls == 2 && g_ll == g_rl && g_ll == len(leftDirectives) && g_found == phi0 + 1
+//@     invariant {a.matched.right.directive.is.marked.so.it.cannot.be.matched.again} forall q in 0..len(matched) :: g_m[q] == 1 ==> matched[q]
+//@   loop 1:
+//@     invariant g_calls == 2 && g_ll == g_rl && g_ll == len(leftDirectives) && g_found == loopphi(0, 0) + 1 && !found
+//@     invariant forall q in 0..len(matched) :: g_m[q] == 1 ==> matched[q]
+
+// C03, removing one selection: exactly the selection at `index` disappears from this set; the selections before it
+// keep their place, the ones after it move up by one, in their order
+//@ func Document.RemoveFromSelectionSet
+//@   requires d != nil && 0 <= ref && ref < len(d.SelectionSets) && 0 <= index && index < len(d.SelectionSets[ref].SelectionRefs)
+//@   ensures {one.selection.less} len(d.SelectionSets[ref].SelectionRefs) == old(len(d.SelectionSets[ref].SelectionRefs)) - 1
+//@   ensures {the.selections.before.it.stay} forall k in 0..index :: d.SelectionSets[ref].SelectionRefs[k] == old(d.SelectionSets[ref].SelectionRefs[k])
+//@   ensures {the.selections.after.it.move.up.in.order} forall k in index..len(d.SelectionSets[ref].SelectionRefs) :: d.SelectionSets[ref].SelectionRefs[k] == old(d.SelectionSets[ref].SelectionRefs[k + 1])
+//@   modifies *
+
+// C03, merging the defer marks of two equal fields (left survives): the survivor is delivered as early as either of the
+// two was asked for - it loses its own defer mark iff the right field has none, or has one with a smaller id, and in
+// that second case it takes over the right field's mark
+//@ func Document.MergeFieldsDefer
+//@   requires d != nil
+//@   ghost var g_k int = 0
+//@   ghost var g_le bool = false
+//@   ghost var g_re bool = false
+//@   ghost var g_lref int = 0 - 1
+//@   ghost var g_rref int = 0 - 1
+//@   ghost var g_q int = 0
+//@   ghost var g_li int = 0
+//@   ghost var g_ri int = 0
+//@   ghost var g_removed bool = false
+//@   at call DirectiveList.HasDirectiveByNameBytes: assert {the.defer.marks.of.left.then.right.are.looked.up} g_k < 2 && arr(arg2) == arr(literal.DEFER_INTERNAL)
+//@   at call DirectiveList.HasDirectiveByNameBytes: ghost g_le = ite(g_k == 0, result1, g_le)
+//@   at call DirectiveList.HasDirectiveByNameBytes: ghost g_lref = ite(g_k == 0, result0, g_lref)
+//@   at call DirectiveList.HasDirectiveByNameBytes: ghost g_re = ite(g_k == 1, result1, g_re)
+//@   at call DirectiveList.HasDirectiveByNameBytes: ghost g_rref = ite(g_k == 1, result0, g_rref)
+//@   at call DirectiveList.HasDirectiveByNameBytes: ghost g_k = g_k + 1
+//@   at call Document.DirectiveArgumentValueByName: assert {the.ids.of.the.left.then.the.right.mark} (g_q == 0 ==> arg1 == g_lref) && (g_q == 1 ==> arg1 == g_rref) && g_q < 2 && g_le && g_re
+//@   at call Document.DirectiveArgumentValueByName: ghost g_q = g_q + 1
+//@   ghost var g_v int = 0
+//@   at call Document.IntValueAsInt: ghost g_li = ite(g_v == 0, result, g_li)
+//@   at call Document.IntValueAsInt: ghost g_ri = ite(g_v == 1, result, g_ri)
+//@   at call Document.IntValueAsInt: ghost g_v = g_v + 1
+//@   at call DirectiveList.RemoveDirectiveByRef: assert {only.the.survivors.own.mark.is.removed} arg1 == g_lref && g_le && !g_removed
+//@   at call DirectiveList.RemoveDirectiveByRef: ghost g_removed = true
+//@   ensures {without.marks.nothing.changes} !g_le && !g_re ==> !g_removed
+//@   ensures {an.undeferred.right.field.makes.the.survivor.undeferred} g_le && !g_re ==> g_removed
+//@   ensures {an.undeferred.survivor.stays.undeferred} !g_le ==> !g_removed
+//@   ensures {of.two.marks.the.smaller.id.wins} g_le && g_re ==> g_v == 2 && (g_removed <==> g_li > g_ri)
+//@   ensures {the.survivor.takes.over.the.winning.mark.of.the.right.field} g_le && g_re && g_li > g_ri ==> len(d.Fields[left].Directives.Refs) > 0 && d.Fields[left].Directives.Refs[len(d.Fields[left].Directives.Refs) - 1] == g_rref
+//@   modifies *
+//@   safety no-bounds
